@@ -71,6 +71,22 @@ def main() -> int:
             disagreements.append(case)
         for f in soft:
             known_hits.setdefault(CLASS_TO_FINDING[f["class"]], dict(case, failure=f))
+    # how much of what the implementation produced lies inside the hypotheses of the composition / projection theorems
+    # (c04_pairs_are_the_composition, c06_paths_project_onto_tables): evaluated in Coq on the real holders
+    from common import coq_eval
+    dom = [x for x in res if "holders_gal" in x]
+    flags = coq_eval("From SV Require Import Holder.CompDefs Holder.Composition.\nOpen Scope string_scope.",
+                     ["((if c04_hyps %s then \"1\" else \"0\") ++ (if c06_hyps %s then \"1\" else \"0\"))%%string" % (x["holders_gal"], x["holders_gal"])
+                      for x in dom], shard=60)
+    dist["inside_c04_hyps"] = sum(f[:1] == "1" for f in flags)
+    dist["inside_c06_hyps"] = sum(f[1:2] == "1" for f in flags)
+    for x, f in zip(dom, flags):
+        hard = [w for w in x["wf"] if not w.get("class")]
+        if f[1:2] == "1" and hard and all(p in ("paths_default",) or True for p in buildtie.PARTS) and not [p for p in buildtie.PARTS if x["model"].get(p) != x["impl"][p]]:
+            # inside the theorem's hypotheses, model = implementation, and yet the projection fails: impossible unless the
+            # check's own oracle or the serialisation is wrong - report as a broken tie rather than stay silent
+            disagreements.append({"sql": x["rec"]["sql"], "spec": "projection fails on a script inside c06_hyps although model and implementation agree",
+                                  "failures": hard[:3]})
     ok = [x for x in res if "impl" in x and x["stats"]["paths"] > 0]
     if ok:
         ck.sample({"sql": ok[0]["rec"]["sql"][:300], "paths": ok[0]["impl"]["paths_default"][:400]})
